@@ -419,6 +419,24 @@ theorem dayNumber_true (n : Int) :
     dayNumber true n = if n + 1462 ≥ 60 then n + 1462 else n + 1462 + 1 := rfl
 theorem tryMilliseconds_eq (v : Int) :
     tryMilliseconds v = if v < -9223372036854775807 then none else some v := rfl
+theorem asDatetimeOfMs_some {v : Int} {z : DateTime} (h : asDatetimeOfMs (.ms v) = some z) :
+    civilOfMs v = some z := by
+  simp only [asDatetimeOfMs, tryMilliseconds_eq] at h
+  by_cases hv : v < -9223372036854775807
+  · rw [if_pos hv] at h; cases h
+  · rw [if_neg hv] at h; exact h
 theorem timeOfSecs_zero : timeOfSecs 0 0 = { h := 0, mi := 0, s := 0, ms := 0 } := rfl
+
+/-! ### definitional facts about cells (restatements of the model, for `simp`) -/
+
+@[simp] theorem asDate_dateTime (s : Serial) (b : Bool) (k : Kind) :
+    (Cell.dateTime s b k).asDate = (Cell.dateTime s b k).asDatetime.map (·.date) := rfl
+@[simp] theorem asTime_dateTime (s : Serial) (b : Bool) (k : Kind) :
+    (Cell.dateTime s b k).asTime = (Cell.dateTime s b k).asDatetime.map (·.time) := rfl
+@[simp] theorem viaSerde_dateTime (s : Serial) (b : Bool) (k : Kind) :
+    (Cell.dateTime s b k).viaSerde = Cell.float s := rfl
+@[simp] theorem asDatetime_other : Cell.other.asDatetime = none := rfl
+@[simp] theorem asDuration_other : Cell.other.asDuration = none := rfl
+theorem dateStep_whole (b : Bool) (n : Int) : dateStep b (.whole n) = .ms (msOfWholeDay b n) := rfl
 
 end Dates
